@@ -177,9 +177,51 @@ type fnCond struct {
 
 type round struct {
 	Res       []resRound `json:"res"`
-	XRReady   int        `json:"xrReady,omitempty"` // pipeline: fnv1.Ready value of desired.composite.ready
+	XRReady   int        `json:"xrReady,omitempty"` // pipeline: fnv1.Ready value of desired.composite.ready in the FINAL desired state
+	// XRScript, if set, says what each pipeline step does to desired.composite.ready (len == steps):
+	// xrPass hands on what it received, xrSetTrue / xrSetFalse state an opinion, xrReset rebuilds
+	// desired.composite without copying ready (READY_UNSPECIFIED). XRReady is then the result after the
+	// last step. Without a script only the last step touches it (sets XRReady).
+	XRScript []int `json:"xrScript,omitempty"`
 	Conds     []fnCond   `json:"conds,omitempty"`
 	FatalStep int        `json:"fatalStep"` // pipeline: step that returns a fatal result (-1: none)
+}
+
+const (
+	xrPass = iota
+	xrSetTrue
+	xrSetFalse
+	xrReset
+)
+
+var xrActNames = [...]string{"pass", "TRUE", "FALSE", "reset"}
+
+// foldXRScript is the contract of run_function.proto: the XR's readiness opinion is the one in the
+// desired state handed back by the LAST step; each step receives its predecessor's desired state.
+func foldXRScript(script []int) int {
+	v := int(fnv1.Ready_READY_UNSPECIFIED)
+	for _, a := range script {
+		switch a {
+		case xrSetTrue:
+			v = int(fnv1.Ready_READY_TRUE)
+		case xrSetFalse:
+			v = int(fnv1.Ready_READY_FALSE)
+		case xrReset:
+			v = int(fnv1.Ready_READY_UNSPECIFIED)
+		}
+	}
+	return v
+}
+
+// staleOpinion reports the class "an earlier step said READY_TRUE, the final desired state says nothing".
+func staleOpinion(script []int) bool {
+	sawTrue := false
+	for _, a := range script {
+		if a == xrSetTrue {
+			sawTrue = true
+		}
+	}
+	return sawTrue && foldXRScript(script) == int(fnv1.Ready_READY_UNSPECIFIED)
 }
 
 type prevCond struct {
@@ -266,7 +308,14 @@ func drawRound(t *rapid.T, sc *scenario) round {
 			rd.Res = append(rd.Res, rr)
 		}
 		if sc.Pipeline {
-			rd.XRReady = rapid.IntRange(0, 2).Draw(t, "xrready")
+			if rapid.IntRange(0, 3).Draw(t, "scripted") == 0 {
+				rd.XRReady = rapid.IntRange(0, 2).Draw(t, "xrready")
+			} else {
+				for i := 0; i < sc.Steps; i++ {
+					rd.XRScript = append(rd.XRScript, rapid.IntRange(xrPass, xrReset).Draw(t, "xrstep"))
+				}
+				rd.XRReady = foldXRScript(rd.XRScript)
+			}
 			nc := rapid.SampledFrom([]int{0, 1, 1, 2, 3}).Draw(t, "nconds")
 			for i := 0; i < nc; i++ {
 				rd.Conds = append(rd.Conds, fnCond{
@@ -304,7 +353,7 @@ func genScenario() *rapid.Generator[scenario] {
 			sc.N = 1 // a Resources-mode Composition without resources is refused as invalid before composing
 		}
 		if sc.Pipeline {
-			sc.Steps = rapid.IntRange(1, 2).Draw(t, "steps")
+			sc.Steps = rapid.IntRange(1, 3).Draw(t, "steps")
 		} else {
 			for i := 0; i < sc.N; i++ {
 				sc.Checks = append(sc.Checks, checkKind(rapid.IntRange(0, int(nCheckKinds)-1).Draw(t, "check")))
@@ -364,9 +413,29 @@ func (w *world) runner() composite.FunctionRunner {
 				}
 			}
 		}
-		if step == w.sc.Steps-1 {
+		newComposite := func() *fnv1.Resource {
+			return &fnv1.Resource{Resource: mustStruct(map[string]any{"apiVersion": "example.org/v1", "kind": "XThing"})}
+		}
+		if rd.XRScript != nil {
+			switch rd.XRScript[step] {
+			case xrSetTrue, xrSetFalse:
+				if d.Composite == nil {
+					d.Composite = newComposite()
+				}
+				d.Composite.Ready = fnv1.Ready_READY_TRUE
+				if rd.XRScript[step] == xrSetFalse {
+					d.Composite.Ready = fnv1.Ready_READY_FALSE
+				}
+			case xrReset:
+				// a function that rebuilds desired.composite from the observed XR and does not copy ready
+				d.Composite = newComposite()
+			}
+			if step == w.sc.Steps-1 && d.Composite == nil {
+				d.Composite = newComposite()
+			}
+		} else if step == w.sc.Steps-1 {
 			if d.Composite == nil {
-				d.Composite = &fnv1.Resource{Resource: mustStruct(map[string]any{"apiVersion": "example.org/v1", "kind": "XThing"})}
+				d.Composite = newComposite()
 			}
 			d.Composite.Ready = fnv1.Ready(rd.XRReady)
 		}
@@ -770,9 +839,9 @@ func (w *world) judge(rd *round, o obs, t truth) []string {
 		case bR != "True" && t.failed:
 			bad("READY-TURNED-BY-FAILED-RECONCILE: composition failed in this reconcile, yet Ready went %q -> True", bR)
 		case bR != "True" && !t.mayBeReady:
-			bad("READY-OVERSTATED: Ready went %q -> True but xrReady=%d and per-resource readiness is %v", bR, rd.XRReady, t.ready)
+			bad("READY-OVERSTATED: Ready went %q -> True but the final desired composite ready is %d (per-step script %v) and per-resource readiness is %v", bR, rd.XRReady, scriptNames(rd.XRScript), t.ready)
 		case bR == "True" && o.statusWritten && !t.failed && !o.composeFailed && !t.mayBeReady:
-			bad("READY-KEPT-OVERSTATED: composition completed and stored status with Ready=True but xrReady=%d and per-resource readiness is %v", rd.XRReady, t.ready)
+			bad("READY-KEPT-OVERSTATED: composition completed and stored status with Ready=True but the final desired composite ready is %d (per-step script %v) and per-resource readiness is %v", rd.XRReady, scriptNames(rd.XRScript), t.ready)
 		}
 	}
 	// Synced=True only if every desired resource was rendered and applied in that same reconcile.
@@ -820,6 +889,14 @@ func (w *world) judge(rd *round, o obs, t truth) []string {
 	return v
 }
 
+func scriptNames(script []int) []string {
+	var out []string
+	for _, a := range script {
+		out = append(out, xrActNames[a])
+	}
+	return out
+}
+
 func outcomes(rd *round) []string {
 	var out []string
 	for _, r := range rd.Res {
@@ -829,7 +906,7 @@ func outcomes(rd *round) []string {
 }
 
 func nonTrivial(rd *round, t truth) bool {
-	if !t.allApplied || !t.allReady || t.forged || rd.XRReady != 0 {
+	if !t.allApplied || !t.allReady || t.forged || rd.XRReady != 0 || staleOpinion(rd.XRScript) {
 		return true
 	}
 	return false
@@ -840,6 +917,12 @@ func runScenario(sc scenario, rec *verifkit.Recorder, fail func(string, ...any))
 	w := newWorld(sc)
 	for i := range sc.Rounds {
 		rd := &sc.Rounds[i]
+		if rd.XRScript != nil {
+			if len(rd.XRScript) != sc.Steps {
+				panic("harness: XRScript must have one entry per pipeline step")
+			}
+			rd.XRReady = foldXRScript(rd.XRScript)
+		}
 		o := w.reconcile(i, rd)
 		t := w.truthOf(rd, o)
 		if rec != nil {
@@ -891,6 +974,22 @@ func labels(rec *verifkit.Recorder, sc scenario, rd *round, o obs, t truth) {
 		}
 	} else {
 		rec.Labelf("pipeline: xrReady=%d", rd.XRReady)
+		if rd.XRScript != nil {
+			rec.Labelf("pipeline: per-step composite ready script, steps=%d", len(rd.XRScript))
+			if staleOpinion(rd.XRScript) {
+				rec.Label("pipeline: earlier step READY_TRUE, final desired state UNSPECIFIED")
+				if !t.allReady && !t.failed {
+					rec.Labelf("pipeline: earlier TRUE, final UNSPECIFIED, some resource unready, composition completed -> Ready=%s", o.after["Ready"].Status)
+				}
+			}
+			early := false
+			for _, a := range rd.XRScript[:len(rd.XRScript)-1] {
+				early = early || a == xrSetTrue || a == xrSetFalse
+			}
+			if early && foldXRScript(rd.XRScript) != foldXRScript(rd.XRScript[:len(rd.XRScript)-1]) {
+				rec.Label("pipeline: last step overrides an earlier opinion")
+			}
+		}
 		if t.forged {
 			rec.Label("pipeline: forged system condition")
 		}
@@ -1020,6 +1119,46 @@ func TestVerifC05ExhaustivePipeline(t *testing.T) {
 			}
 		}
 	}
+	// Per-step composite readiness: every script of 2 steps (16) x every per-resource combination for n<=2 (91)
+	// x 3 families of earlier conditions, and every script of 3 steps (64) x n<=1 (10).
+	for _, res := range resCombos {
+		for a := xrPass; a <= xrReset; a++ {
+			for b := xrPass; b <= xrReset; b++ {
+				for pi, prev := range prevFamilies {
+					idx++
+					if !mine(idx) {
+						continue
+					}
+					ran++
+					sc := scenario{Pipeline: true, Steps: 2, N: len(res), Prev: prev, Seed: int64(idx),
+						Rounds: []round{{Res: append([]resRound(nil), res...), XRScript: []int{a, b}, FatalStep: -1}}}
+					rec.Eval()
+					rec.Labelf("prev family %d", pi)
+					runScenario(sc, rec, func(f string, a ...any) { t.Errorf(f, a...) })
+					if t.Failed() {
+						t.FailNow()
+					}
+				}
+				if len(res) > 1 {
+					continue
+				}
+				for c := xrPass; c <= xrReset; c++ {
+					idx++
+					if !mine(idx) {
+						continue
+					}
+					ran++
+					sc := scenario{Pipeline: true, Steps: 3, N: len(res), Prev: prevFamilies[2], Seed: int64(idx),
+						Rounds: []round{{Res: append([]resRound(nil), res...), XRScript: []int{a, b, c}, FatalStep: -1}}}
+					rec.Eval()
+					runScenario(sc, rec, func(f string, a ...any) { t.Errorf(f, a...) })
+					if t.Failed() {
+						t.FailNow()
+					}
+				}
+			}
+		}
+	}
 	rec.Extra("exhaustive_pipeline_product_size", idx)
 	rec.AddExtra("exhaustive_pipeline_cases_run", ran)
 }
@@ -1118,6 +1257,14 @@ var pinned = []struct {
 	}}},
 	{"pipeline: READY_FALSE overrides ready resources", scenario{Pipeline: true, Steps: 1, N: 1, Seed: 14, Rounds: []round{
 		{FatalStep: -1, XRReady: 2, Res: []resRound{{FnReady: 1}}},
+	}}},
+	{"pipeline: READY_TRUE of step 1 is dropped by step 2, one resource unready", scenario{Pipeline: true, Steps: 2, N: 2, Seed: 41, Prev: []prevCond{{"Ready", "False"}}, Rounds: []round{
+		{FatalStep: -1, XRScript: []int{xrSetTrue, xrReset}, Res: []resRound{{FnReady: 1}, {FnReady: 2}}},
+	}}},
+	{"pipeline: READY_TRUE, pass, reset over three steps; then READY_FALSE overridden by reset with everything ready", scenario{Pipeline: true, Steps: 3, N: 1, Seed: 42, Rounds: []round{
+		{FatalStep: -1, XRScript: []int{xrSetTrue, xrPass, xrReset}, Res: []resRound{{FnReady: 0}}},
+		{FatalStep: -1, XRScript: []int{xrSetFalse, xrReset, xrPass}, Res: []resRound{{FnReady: 1}}},
+		{FatalStep: -1, XRScript: []int{xrSetTrue, xrSetFalse, xrPass}, Res: []resRound{{FnReady: 1}}},
 	}}},
 	{"pipeline: forged Healthy, Ready and Synced on success", scenario{Pipeline: true, Steps: 2, N: 1, Seed: 15, Claim: 1, Rounds: []round{
 		{FatalStep: -1, Res: []resRound{{Outcome: oInvalid, FnReady: 2}}, Conds: []fnCond{{Type: "Healthy", Status: 2, Target: 2}, {Type: "Ready", Status: 2, Target: 1, Step: 1}, {Type: "Synced", Status: 2, Target: 2, Step: 1}}},
